@@ -33,7 +33,19 @@ def rustc(c, cases):
     gen = [cs for cs in batch if cs.get("ref")]
     # repository inputs that lie inside the supported subset (the others, e.g. WSDLs with two bindings, are only used for the correspondence)
     repo = [cs for cs in batch if not cs.get("ref") and (cs["meta"].get("source") or "").endswith(("hello.wsdl", "tempconverter.wsdl", "simple.xsd"))]
-    chosen = repo + gen[: (56 if c.tier == "quick" else 900)]
+    # a stratified sample: the profiles take turns, so every profile reaches rustc in the quick tier too
+    by_profile = {}
+    for cs in gen:
+        by_profile.setdefault(os.path.basename(os.path.dirname(cs["dir"])), []).append(cs)
+    limit = 72 if c.tier == "quick" else 1100
+    picked = []
+    k = 0
+    while len(picked) < limit and any(k < len(v) for v in by_profile.values()):
+        for v in by_profile.values():
+            if k < len(v) and len(picked) < limit:
+                picked.append(v[k])
+        k += 1
+    chosen = repo + picked
     fails = []
     n = 0
     for i in range(0, len(chosen), 64):
@@ -52,7 +64,7 @@ def rustc(c, cases):
 def run(tier, seed):
     return st.run_structural(
         "C01", tier, seed, "ZeepVerif.Props.C01", "ZeepVerif/Audit/C01.lean",
-        [("gen", 30, 500), ("genwsdl", 40, 700), ("gencollide", 10, 150), ("genwsdlcollide", 10, 150)], oracle, projection, CHECKER, extra=rustc,
+        [("gen", 30, 500), ("genwsdl", 40, 700), ("gencollide", 10, 150), ("genwsdlcollide", 10, 150), ("gentopo", 40, 400)], oracle, projection, CHECKER, extra=rustc,
         note_assumptions=["rustc's acceptance of a program is the compiler's decision (environment): cargo check, edition 2024, in crates whose only dependencies are the documented six",
                           "names that shadow the fixed prelude (String, Vec, Option, Rc, ...) are outside NamesSeparated (DESIGN.md 2.2)"],
         rule_note="Every generated program of the batch and the repository corpus outputs are compiled by rustc.")
